@@ -246,6 +246,10 @@ def run(ck: common.Check, replay=None):
             rep["log"] = (out + err + out2 + err2)[-1500:]
             ck.violation({"case": name}, "reset obligation not discharged", rep, no_input=True)
     ck.cov["programs"] = ck.cov.get("programs", 0) + len(coro_files)
+    # library plumbing around reset (NoresetSignal/NoresetVariable of compound types, SequentialContext.with_params):
+    # equivalence pairs against written-out renderings, proved for all input sequences
+    import c04_pairs
+    c04_pairs.run_pairs(ck)
     ck.cov["rule"] = ("one theorem per generated design (sequential bodies and coroutines) x reset variant; the theorem covers reset at "
                       "every clock, for every duration, in every reachable state, followed by every input sequence")
     ck.trusted += ["fail-closed VHDL reader", "Vhdl.Sem (asynchronous resets observed through the mid-cycle sample)",
